@@ -98,7 +98,7 @@ Init ==
   /\ tlock = [s \in Sess |-> [t \in Streams |-> None]]
   /\ x = [e \in Exch |-> NoExch]
   /\ recv = [e \in Exch |-> <<>>]
-  /\ h = [s \in Sess |-> [r \in Reqs |-> [pc |-> "none", n |-> 0, q |-> 0, b |-> 0]]]
+  /\ h = [s \in Sess |-> [r \in Reqs |-> [pc |-> "none", n |-> 0, q |-> 0, b |-> 0, bp |-> {}]]]
   /\ wr = [s \in Sess |-> [o \in Origins |-> NoWrite]]
   /\ nsa = [s \in Sess |-> 0]
   /\ issued = [s \in Sess |-> [t \in Streams |-> {}]]
@@ -174,19 +174,24 @@ Sa(s, g) ==
   /\ UNCHANGED <<cfg, alive, str, tmp, rs, log, lock, tlock, x, recv, h, issued, okEnd>>
 
 \* the handler calls Server.ResourceUpdated with its own context: every (subscribed, live) session is
-\* notified; for each of them the message is issued outside any of ITS requests
+\* notified, one after the other in an unspecified order (a Go map); for each of them the message is
+\* issued outside any of ITS requests
 HBcast(s, r) ==
   /\ h[s][r].pc = "run" /\ h[s][r].b < MaxBc /\ ~Stateless
-  /\ \A s2 \in Sess : wr[s2]["bc"].pc = "idle"
-  /\ wr' = [s2 \in Sess |-> IF alive[s2]
-                THEN [wr[s2] EXCEPT !["bc"] = [NoWrite EXCEPT !.pc = "route",
-                         !.pl = [s |-> s2, o |-> r, k |-> "bcast", n |-> h[s][r].b + 1, os |-> s]]]
-                ELSE wr[s2]]
-  /\ h' = [h EXCEPT ![s][r].pc = "busyb", ![s][r].b = @ + 1]
+  /\ \A s2 \in Sess, r2 \in Reqs : h[s2][r2].pc # "busyb"
+  /\ h' = [h EXCEPT ![s][r].pc = "busyb", ![s][r].b = @ + 1, ![s][r].bp = {s2 \in Sess : alive[s2]}]
+  /\ UNCHANGED <<cfg, alive, str, tmp, rs, log, lock, tlock, x, recv, wr, nsa, issued, okEnd>>
+
+BcastNext(s, r, s2) ==
+  /\ h[s][r].pc = "busyb" /\ s2 \in h[s][r].bp
+  /\ \A s3 \in Sess : wr[s3]["bc"].pc = "idle"
+  /\ wr' = [wr EXCEPT ![s2]["bc"] = [NoWrite EXCEPT !.pc = "route",
+                          !.pl = [s |-> s2, o |-> r, k |-> "bcast", n |-> h[s][r].b, os |-> s]]]
+  /\ h' = [h EXCEPT ![s][r].bp = @ \ {s2}]
   /\ UNCHANGED <<cfg, alive, str, tmp, rs, log, lock, tlock, x, recv, nsa, issued, okEnd>>
 
 BcastDone(s, r) ==
-  /\ h[s][r].pc = "busyb" /\ \A s2 \in Sess : wr[s2]["bc"].pc = "idle"
+  /\ h[s][r].pc = "busyb" /\ h[s][r].bp = {} /\ \A s2 \in Sess : wr[s2]["bc"].pc = "idle"
   /\ h' = [h EXCEPT ![s][r].pc = "run"]
   /\ UNCHANGED <<cfg, alive, str, tmp, rs, log, lock, tlock, x, recv, wr, nsa, issued, okEnd>>
 
@@ -309,6 +314,8 @@ AcqCS(g) ==
 \* the client disconnects: the request context of that exchange is cancelled
 Cut(e) ==
   /\ x[e].pc \in {"open", "lock", "cs", "hang", "rel", "closing"} /\ ~x[e].cut
+  \* (a stateless POST abandoned before its call is published races the ephemeral session's Close: not modelled)
+  /\ x[e].pc = "open" => ~Stateless
   /\ x' = [x EXCEPT ![e].cut = TRUE]
   /\ UNCHANGED <<cfg, alive, str, tmp, rs, log, lock, tlock, recv, h, wr, nsa, issued, okEnd>>
 
@@ -359,14 +366,14 @@ GateOpen ==
 -----------------------------------------------------------------------------
 SdkNext ==
   \/ \E s \in Sess, o \in Origins : WRoute(s, o) \/ WLock(s, o) \/ WCS(s, o)
-  \/ \E s \in Sess, r \in Reqs : PostReg(s, r) \/ BcastDone(s, r)
+  \/ \E s \in Sess, r \in Reqs : PostReg(s, r) \/ BcastDone(s, r) \/ (\E s2 \in Sess : BcastNext(s, r, s2))
   \/ \E g \in Gets : AcqLookup(g) \/ AcqLock(g) \/ AcqCS(g)
   \/ \E e \in Exch : Wake(e) \/ Rel(e) \/ SessClosed(e)
 \* ENABLED SdkNext, written out (cheaper for TLC; StreamSrvMC checks the equivalence)
 SdkEnabled ==
   \/ \E s \in Sess, r \in Reqs :
         \/ x[PX(s, r)].pc = "open" /\ ~x[PX(s, r)].held
-        \/ h[s][r].pc = "busyb" /\ \A s2 \in Sess : wr[s2]["bc"].pc = "idle"
+        \/ h[s][r].pc = "busyb" /\ \A s2 \in Sess : wr[s2]["bc"].pc = "idle"   \* BcastNext or BcastDone
   \/ \E s \in Sess, o \in Origins :
         \/ wr[s][o].pc = "route"
         \/ wr[s][o].pc = "lock" /\ lock[s][wr[s][o].tgt] = None
